@@ -224,13 +224,36 @@ def do_request(w, spec_chain, address, root_idx, fn, method, a, label):
     before = len(op.requests)
     del w.log[:]
     others_before = [len(r["opener"].requests) for r in w.roots]
+    if a.get("fail"):
+        op.fail_next = a["fail"]
     try:
         ret = fn(a["path"], **kw)
     except Exception as e:   # noqa
+        if a.get("fail"):
+            # the server (or the transport) failed: exactly one request went out, with every adapter applied once
+            w.classes.add("request_that_fails_in_transport")
+            op.fail_next = None
+            n = len(op.requests) - before
+            url, tags, auth = expected_request(spec_chain, address, method, a)
+            if n != 1:
+                w.f.append(("failed_request_sent_%d_times" % n, f"{label}: urls {[r.get_full_url() for r in op.requests[before:]]!r}"))
+            elif op.requests[-1].get_full_url() != url:
+                w.f.append(("wrong_url", f"{label}: {op.requests[-1].get_full_url()!r} expected {url!r} (failing request)"))
+            elif [t for k, t in w.log if k == "req"] != tags:
+                w.f.append(("adapters_not_applied_exactly_once_in_order", f"{label}: failing request, order "
+                            f"{[t for k, t in w.log if k == 'req']}, expected {tags}"))
+            for r_ in op.requests[before:]:
+                rid = {k.lower(): v for k, v in r_.header_items()}.get("x-request-id")
+                if (h0 or {}).get("X-Request-ID") is None and isinstance(rid, str) and len(rid.split("-")) == 5:
+                    root["ids"].append(rid)
+            if not isinstance(e, (OSError,)):
+                w.f.append(("failing_request_raises_%s" % type(e).__name__, f"{label}: {e}"))
+            return
         import traceback
         where = traceback.extract_tb(e.__traceback__)[-1].name
         w.f.append(("request_raises_%s_in_%s" % (type(e).__name__, where), f"{label}: {e}"))
         return
+    op.fail_next = None
     if (headers, params, data) != (h0, p0, d0):
         w.f.append(("caller_objects_modified", f"{label}: headers/params/data changed to {headers!r} {params!r} {data!r}"))
     for i, r in enumerate(w.roots):
@@ -503,6 +526,7 @@ def st_reqargs(with_method=True):
                           jval.filter(lambda j: not isinstance(j, str) and j is not None).map(lambda j: {"j": j})),
         "headers": st.none() | hdr,
         "raw": st.sampled_from([False, False, True]),
+        "fail": st.sampled_from([None, None, None, None, None, 500, 502, 503, 504, 404, "url"]),
         "body": st.none() | st.dictionaries(st.text("k", min_size=1, max_size=2), st.integers(0, 5), max_size=2) | st.lists(st.integers(0, 3), max_size=2),
     })
 
